@@ -31,8 +31,14 @@ def nodesPairs : List (PyVal × PyVal) → Nat
   | (k, v) :: rest => k.nodes + v.nodes + nodesPairs rest
 end
 
-/-- not a container: `None`, `bool`, `int`, `float`, `str`, an opaque object. -/
-def PyVal.isScalar : PyVal → Bool
+end Txdbus
+
+namespace Txdbus.CostValue
+
+/-- What a descriptor handed to the decoder (`oobFDs[i]`) has to be for the composition theorems of C05: not a container
+- `None`, `bool`, `int`, `float`, `str`, an opaque object (ints in txdbus).  (Not `Txdbus.PyVal.isScalar` of
+`Wire/Claim.lean`, which is C19's "bool / int / float / str".) -/
+def isFdScalar : PyVal → Bool
   | .list _ => false
   | .tuple _ => false
   | .dict _ => false
@@ -40,4 +46,4 @@ def PyVal.isScalar : PyVal → Bool
   | .bytearray _ => false
   | _ => true
 
-end Txdbus
+end Txdbus.CostValue
